@@ -954,16 +954,33 @@ class Store:
     def op_NumbaCall(self, op):
         from .numba_fx import numba_effects
         eff = numba_effects(op.fn)
-        ins = {p: self.snapshot(v) for p, v in op.args.items() if isinstance(v, Arr)}
-        for p in eff["writes"]:
+        snaps = {p: self.snapshot(v) for p, v in op.args.items() if isinstance(v, Arr)}
+        order = sorted(eff["writes"], key=lambda q: eff["per"][q]["records"][0].lineno)
+        for p in order:
             v = op.args.get(p)
             if not isinstance(v, Arr):
                 continue
+            info = eff["per"][p]
+            mode = info["mode"]
+            if mode == "overwrite" and info["comps"] is not None:
+                lead = v.shape[:-1]
+                comps = info["comps"]
+                if not any("..." in c for c in comps):
+                    want = set(itertools.product(*[range(int(simplify_scalar(n))) for n in lead])) if all(
+                        isinstance(simplify_scalar(n), int) for n in lead) else None
+                    if want is None or set(comps) != want:
+                        mode = "update"   # some components keep their previous content
+            deps = set(info["deps"])
+            if mode == "update":
+                deps.add(p)
+            ins = {q: snaps[q] for q in deps if q in snaps}
             vi = ViewInfo(v)
             for comp in vi.comp_tuples():
                 key = self.key(vi.alloc, comp, vi.part)
-                name, atom = self.new_ext("numba:" + op.fn.fn.node.name, key, ins, op, {"param": p})
+                name, atom = self.new_ext("numba:" + op.fn.fn.node.name, key, ins, op, {"param": p, "mode": mode})
                 self.write(key, vi.box(), atom)
+            # statements run in program order (A4): later reads of p in this kernel see the new content
+            snaps[p] = self.snapshot(v)
 
     def op_AttrSet(self, op):
         self.scalar_defs.setdefault((op.inst.id, op.attr), []).append(op)
@@ -1125,3 +1142,44 @@ def compose(outer, inner):
                 raise Unsupported("compose through an absolute offset")
             sub[a] = shift_expr(inner[a[1]], list(off))
     return outer.subs(sub) if sub else outer
+
+
+def _exprs_in(obj):
+    """all Piece expressions inside a nested snapshot structure"""
+    if isinstance(obj, Piece):
+        yield obj.expr
+    elif isinstance(obj, dict):
+        if "pieces" in obj and isinstance(obj["pieces"], list):
+            for p in obj["pieces"]:
+                yield p.expr
+        else:
+            for v in obj.values():
+                yield from _exprs_in(v)
+    elif isinstance(obj, (list, tuple)):
+        for v in obj:
+            yield from _exprs_in(v)
+
+
+def roots_of(store, exprs):
+    """names of the *initial* array contents the expressions depend on, following version
+    definitions (stages and external operations) transitively"""
+    seen, out = set(), set()
+    stack = []
+    for e in exprs:
+        stack.extend(deps_of(e))
+    while stack:
+        n = stack.pop()
+        if n in seen:
+            continue
+        seen.add(n)
+        d = store.defs.get(n)
+        if d is None or d["kind"] == "init":
+            out.add(n)
+            continue
+        if d["kind"] == "stage":
+            for p in d["pieces"]:
+                stack.extend(deps_of(p.expr))
+        elif d["kind"] == "ext":
+            for e in _exprs_in(d.get("inputs")):
+                stack.extend(deps_of(e))
+    return out
